@@ -631,6 +631,35 @@ def _refilled_call(ctx, bud, text, arr, first, call, **detail):
                       % (text, again, tuple(a[::-1] for a in firsts)), kind='refilled-buffer', **detail)
 
 
+def _scribbled_call(ctx, bud, text, first, call, **detail):
+    """The arrays an earlier call returned belong to the caller: scaled and shifted in place, they must not change what
+    the same call (same argument object) answers afterwards."""
+    import numpy as np
+    first = call()          # a fresh answer: its arrays are the ones edited below
+    firsts = first if isinstance(first, tuple) else (first,)
+    keep = []
+    touched = 0
+    for a in firsts:
+        if isinstance(a, np.ndarray) and a.ndim >= 1 and a.flags.writeable and a.dtype.kind == 'f':
+            keep.append(a.copy())
+            a *= 0.5
+            a += 1.0
+            touched += 1
+        else:
+            keep.append(a)
+    if not touched:
+        ctx.count('scribble.nothing_writable')
+        return
+    again = call()
+    agains = again if isinstance(again, tuple) else (again,)
+    ctx.evaluated(1, 'returned_arrays_edited')
+    ctx.count('scribble.returned_arrays')
+    if len(keep) != len(agains) or not all(_same_bits(a, b) for a, b in zip(keep, agains)):
+        bud.violation('%s: after the caller edited the arrays it had been given (x*0.5 + 1, in place), the same call gave '
+                      '%.300r; before the edit it gave %.300r' % (text, again, tuple(keep)), kind='returned-array-live',
+                      **detail)
+
+
 def _atom(key):
     from .. import atoms
     return atoms.lookup(_state['pt'].elements, tuple(key))
@@ -754,6 +783,7 @@ def _sweep(ctx, bud, Z, atom, energies, how, scalar=True, wavelength=False, buf=
             not any(xr.table(Z).excluded(e) for e in energies):
         # (numpy.interp inside a non-monotone window depends on the neighbouring points: not judged)
         _refilled_call(ctx, bud, text, arr, (v1, v2), _EnergyCall(atom), Z=Z)
+        _scribbled_call(ctx, bud, text, (v1, v2), lambda: atom.xray.scattering_factors(energy=arr), Z=Z)
     return 'ok'
 
 
@@ -1256,6 +1286,7 @@ def check_compound(ctx, case):
         same = _repeat_call(ctx, bud, vector_text, gv, xsf.xray_sld(obj, density=rho, energy=arg))
         if same and form == 'array' and not any(xr.table(k[0]).excluded(e) for k in comp for e in es):
             _refilled_call(ctx, bud, vector_text, arg, gv, _SldCall(xsf, obj, rho))
+            _scribbled_call(ctx, bud, vector_text, gv, lambda: xsf.xray_sld(obj, density=rho, energy=arg))
 
 
 class _SldCall(object):
@@ -1643,6 +1674,9 @@ def _f0_compare(ctx, bud, text, fn, entry, electrons=None):
     _repeat_call(ctx, bud, text + ' with the Q grid %r' % (qs,), vec, fn(qarr))
     qtmp = np.array(qs)
     _refilled_call(ctx, bud, text + ' with the Q values %r' % (qs,), qtmp, np.asarray(fn(qtmp)), fn)
+    got_q = fn(qtmp)
+    _scribbled_call(ctx, bud, text + ' with the Q values %r' % (qs,), got_q if isinstance(got_q, tuple) else (got_q,),
+                    lambda: (fn(qtmp),))
 
 
 def check_f0_entry(ctx, case):
